@@ -57,6 +57,15 @@ def build_initial(init: dict) -> bytes:
         out = io.BytesIO()
         D.write_zip(members, out)
         return out.getvalue()
+    if init["deck"] == "genmany":
+        prs = pptx.Presentation()
+        s = prs.slides.add_slide(prs.slide_layouts[6])
+        for i in range(10):
+            s.shapes.add_picture(io.BytesIO(image_bytes(21 + i)), 50000 * (i + 1), 100000)
+        prs.slides.add_slide(prs.slide_layouts[6])
+        b = io.BytesIO()
+        prs.save(b)
+        return b.getvalue()
     if init["deck"] == "gendupimg":
         prs = pptx.Presentation()
         s = prs.slides.add_slide(prs.slide_layouts[6])
